@@ -109,6 +109,8 @@ struct TaskState {
     ok_calls: u32,
     failed_calls: u32,
     arena: Vec<&'static [u8]>,
+    /// the call being checked failed (set by `failing`, reset at the start of every call)
+    call_failed: bool,
 }
 
 fn read_last_error() -> Option<Vec<u8>> {
@@ -116,8 +118,16 @@ fn read_last_error() -> Option<Vec<u8>> {
     if p.is_null() { None } else { Some(unsafe { CStr::from_ptr(p) }.to_bytes().to_vec()) }
 }
 
-fn verify_last_error(st: &TaskState, fname: &'static str) {
+fn verify_last_error(st: &mut TaskState, fname: &'static str) {
     let got = read_last_error();
+    // The statement says what a *failing* call does to last-error; it is silent on succeeding calls. The
+    // implementation leaves the message in place, but one that clears it on success would satisfy the
+    // statement too: accept NULL after a succeeding call (and follow it), never a different text.
+    if !st.call_failed && got.is_none() && st.last_err != ExpErr::None {
+        st.last_err = ExpErr::None;
+        kernel::count("c20.cleared_on_success");
+        return;
+    }
     let ok = match (&st.last_err, &got) {
         (ExpErr::None, None) => true,
         (ExpErr::Exact(want), Some(g)) => want == g,
@@ -140,6 +150,7 @@ fn verify_last_error(st: &TaskState, fname: &'static str) {
 
 /// A call failed as the reference predicts: the message must have been replaced.
 fn failing(st: &mut TaskState, fname: &'static str, expected: ExpErr) {
+    st.call_failed = true;
     FAIL_EPOCH.fetch_add(1, std::sync::atomic::Ordering::SeqCst);
     st.last_err = expected;
     st.failed_calls += 1;
@@ -186,6 +197,7 @@ fn name_str(name: &[u8]) -> Result<&str, String> {
 
 fn do_call(st: &mut TaskState, sh: &Shared, call: &Call) {
     let scheme: &'static ffi::Scheme = sh.scheme;
+    st.call_failed = false;
     match call {
         Call::Parse(bytes) => {
             let fname = "wirefilter_parse_filter";
@@ -994,6 +1006,7 @@ fn run(ctx: &RunCtx) -> Result<(), Violation> {
                     ok_calls: 0,
                     failed_calls: 0,
                     arena: Vec::new(),
+                    call_failed: false,
                 };
                 let mut others_failed_between = 0;
                 for c in &p {
@@ -1009,7 +1022,7 @@ fn run(ctx: &RunCtx) -> Result<(), Violation> {
                     if FAIL_EPOCH.load(std::sync::atomic::Ordering::SeqCst) != before && st.last_err != ExpErr::None {
                         others_failed_between += 1;
                     }
-                    verify_last_error(&st, "readback-after-switch");
+                    verify_last_error(&mut st, "readback-after-switch");
                 }
                 if others_failed_between > 0 {
                     kernel::count("c20.cross_task_error");
